@@ -42,7 +42,8 @@ def run(ctx, res):
         if inst["rule"] == "C13-R6" and str(inst["instance"]).startswith("reducer/") and inst["ok"]:
             res.ok(rid3, "glr/" + inst["instance"], inst.get("where"))
     for v in sub.violations:
-        if v["rule"] == "C13-R6" and "/reducer/" in v["key"]:
+        if v["rule"] == "C13-R6" and "/reducer/" in v["key"] and "link-span-first-possibility" not in v["key"]:
+            # (that one is about links with several possibilities: ambiguity, outside this property's premise)
             res.violation(rid3, "glr/" + v["key"].split("/", 1)[1], v["what"], v.get("where"))
     # S4 lexical filtering siblings
     sub = report.Result("C07", ctx.tier)
@@ -127,7 +128,8 @@ def run(ctx, res):
     # S11 the layout bracket of the GLR token fetch (sibling of C14-R1 for LR): the head is put into the layout state for the
     # layout parser and back into its own state on EVERY way out, the retry included
     rid11 = res.rule("C07-S11", "GLR find_lookaheads: the layout parser runs between set_state(default_layout) and set_state(saved "
-                     "state) on every path (as LR next_token does): a head left in the layout state rejects what LR accepts", floor=1)
+                     "state) on every path (as LR next_token does): a head left in the layout state rejects what LR accepts; layout is "
+                     "tried after tokens only, and again after layout as LR does", floor=3)
     fl = F.one(rt.GLR + "find_lookaheads$")
     nbr = 0
     badp = None
@@ -158,6 +160,46 @@ def run(ctx, res):
                       "empty-handed first: GLR skips as layout what LR reads as a token (`/` against `//` comments)", fl.loc())
     elif nbr:
         res.ok(rid11, "glr-layout-after-tokens", fl.loc(), "layout only when no token matched")
+    # ... and as often as LR: LR's token fetch goes round as long as the layout parser finds something (layout, tokens,
+    # layout, ..). A flag that switches the layout attempt off for the retry makes GLR reject `a /*c*/ b` under a layout rule
+    # that does not repeat by itself (`Layout: WS | Comment;`) where LR accepts it (D31). Structural form: a bool local whose
+    # test dominates the layout parser call must be `true` again on every path that goes back to the loop head.
+    tbl_ = TermBuilder(fl, F)
+    lp_blocks = [b for b, tm in fl.calls() if mir.call_matches(callee(tm), "parse_with_context")]
+    guards = set()
+    for lb in lp_blocks:
+        for db in fl.dominators().get(lb, ()):
+            tm = fl.blocks[db]["term"]
+            if tm["k"] == "switch" and tm.get("ty") == "bool" and not mir.is_log(tm):
+                t = tbl_.operand(tm["op"])
+                for x in mir.walk(t):
+                    if isinstance(x, tuple) and x[0] == "var" and isinstance(x[1], str):
+                        guards.add(x[1])
+    retry_bad, retry_n, retry_odd = None, 0, None
+    for p in Sim(fl, F, max_paths=100000).run():
+        if p.end != "backedge" or idx(p, "parse_with_context") is None:
+            continue
+        retry_n += 1
+        for gname in sorted(guards):
+            sets = [e for e in p.events if e[0] == "set" and e[1] == gname]
+            if not sets:
+                continue
+            last = sets[-1][2]
+            if last == ("const", 0):
+                retry_bad = gname
+            elif last != ("const", 1):
+                retry_odd = gname
+    if nbr and retry_bad:
+        res.violation(rid11, "glr-layout-retry", "after a successful layout the GLR token fetch goes back with `%s` = false: the layout "
+                      "attempt is switched off for the retry, LR retries as long as it finds layout (`a /*c*/ b` under "
+                      "`Layout: WS | Comment;` is accepted by LR and rejected by GLR)" % retry_bad, fl.loc())
+    elif nbr and retry_odd:
+        res.undecided(rid11, "the flag `%s` guards the layout attempt of find_lookaheads and is set to something this rule does not "
+                      "read before the retry" % retry_odd, fl.loc())
+    elif nbr and retry_n:
+        res.ok(rid11, "glr-layout-retry", fl.loc(), "%d retry path(s), %d guard flag(s), none left switched off" % (retry_n, len(guards)))
+    elif nbr:
+        res.undecided(rid11, "no path of find_lookaheads goes back to the loop head after the layout parser", fl.loc())
     if not nbr:
         res.anchor_lost(rid11, "call of the layout parser in find_lookaheads not found", fl.loc())
     elif badp:
@@ -170,6 +212,31 @@ def run(ctx, res):
     rid12 = res.rule("C07-S12", "LR and GLR put the context's span back after the layout parser ran (shares C13-R10): the anchor "
                      "of EMPTY, and with it the span of every parent that ends in one, is the same in both", floor=2)
     c13.r_layout_span(F, res, rid12)
+    # S13 what the parser looks at after a reduction. LR fetches the lookahead AGAIN in the new state (the expected set is
+    # narrower there: context-aware lexing); GLR carries the token found before the reduction into the reduced head. With
+    # LALR-merged lookaheads the carried token may have no action in the new state although a token the new state expects -
+    # STOP under partial parsing - is there: LR accepts the prefix, GLR rejects (D32).
+    rid13 = res.rule("C07-S13", "after a reduction both parsers decide on the same lookahead: LR fetches it again in the new state, "
+                     "so GLR must too (or LR must not)", floor=1)
+    flr, lrpaths = rt.cache(F).paths(rt.LR_PWC)
+    lr_relex = None
+    for p in lrpaths:
+        kind, action = rt.lr_action_kind(p)
+        if kind == "Reduce":
+            lr_relex = bool(lr_relex) or idx(p, "next_token") is not None
+    red = F.one(rt.GLR + "reducer$")
+    cg = mir.CallGraph(F)
+    reach = cg.reach([red.path])
+    glr_relex = any(mir.call_matches(x, "find_lookaheads") or mir.call_matches(x, "Lexer::next_tokens") or x.endswith("::next_tokens") for x in reach)
+    if lr_relex is None:
+        res.anchor_lost(rid13, "no Reduce path in the LR loop", flr.loc())
+    elif lr_relex == glr_relex:
+        res.ok(rid13, "relex-after-reduce", red.loc(), "both %s the lookahead after a reduction" % ("fetch" if lr_relex else "keep"))
+    else:
+        res.violation(rid13, "relex-after-reduce", "LR %s the lookahead after a reduction, GLR %s it: with partial parsing (or any "
+                      "lexing that depends on the state) the two decide on different tokens - `S: Tx A | Tx A Tb | Ty A Tc; A: Ta;` "
+                      "on `x a c`: LR takes STOP and accepts the prefix, GLR holds on to `c` and rejects" % (
+                          "fetches again" if lr_relex else "keeps", "fetches again" if glr_relex else "keeps"), red.loc())
     rid8 = res.rule("C07-S8", "Tree::build replays a forest tree through an LR builder in post-order with the LR loop's call protocol "
                     "(shift_action(ctx, token); children left to right, then reduce_action(ctx, prod, children.len()))", floor=2)
     h = F.one(r"^rustemo::glr::gss::Tree::<[^>]*>::build_inner$")
